@@ -1235,47 +1235,40 @@ func (f *fragment) maxUnsigned(filter *Row, bitDepth uint) (max int64, count uin
 	return max, count
 }
 
-// minRow returns minRowID of the rows in the filter and its count.
-// if filter is nil, it returns fragment.minRowID, 1
-// if fragment has no rows, it returns 0, 0
+// minRow returns the smallest row ID that has at least one bit (in the filter,
+// if one is given) and the number of its bits (in the filter).
+// if fragment has no such row, it returns 0, 0
 func (f *fragment) minRow(filter *Row) (uint64, uint64) {
-	minRowID, hasRowID := f.minRowID()
-	if hasRowID {
-		if filter == nil {
-			return minRowID, 1
-		}
-		// iterate from min row ID and return the first that intersects with filter.
-		for i := minRowID; i <= f.maxRowID; i++ {
-			row := f.row(i).Intersect(filter)
-			count := row.Count()
-			if count > 0 {
-				return i, count
-			}
+	// Walk the rows that exist in storage: maxRowID is only a high-water mark
+	// (it is not raised by imports and never lowered by clears).
+	for _, rowID := range f.rows(0) {
+		if count := f.rowCount(rowID, filter); count > 0 {
+			return rowID, count
 		}
 	}
 	return 0, 0
 }
 
-// maxRow returns maxRowID of the rows in the filter and its count.
-// if filter is nil, it returns fragment.maxRowID, 1
-// if fragment has no rows, it returns 0, 0
+// maxRow returns the largest row ID that has at least one bit (in the filter,
+// if one is given) and the number of its bits (in the filter).
+// if fragment has no such row, it returns 0, 0
 func (f *fragment) maxRow(filter *Row) (uint64, uint64) {
-	minRowID, hasRowID := f.minRowID()
-	if hasRowID {
-		if filter == nil {
-			return f.maxRowID, 1
-		}
-		// iterate back from max row ID and return the first that intersects with filter.
-		// TODO: implement reverse container iteration to improve performance here for sparse data. --Jaffee
-		for i := f.maxRowID; i >= minRowID; i-- {
-			row := f.row(i).Intersect(filter)
-			count := row.Count()
-			if count > 0 {
-				return i, count
-			}
+	rowIDs := f.rows(0)
+	for i := len(rowIDs) - 1; i >= 0; i-- {
+		if count := f.rowCount(rowIDs[i], filter); count > 0 {
+			return rowIDs[i], count
 		}
 	}
 	return 0, 0
+}
+
+// rowCount returns the number of bits of a row, within filter if it is not nil.
+func (f *fragment) rowCount(rowID uint64, filter *Row) uint64 {
+	row := f.row(rowID)
+	if filter != nil {
+		row = row.Intersect(filter)
+	}
+	return row.Count()
 }
 
 // rangeOp returns bitmaps with a bsiGroup value encoding matching the predicate.
